@@ -25,6 +25,10 @@ CHECKS = {
          "Generated-input search: every extracted sample must equal the single evaluation of its state (objective, constraints with metadata, both flags, state, variables), tables keyed by exactly the submitted ids, invariant under re-grouping.",
          "Single-sample evaluation is the reference (tied to the independent model by C05); states in-bound; sample ids distinct.",
          "DESIGN.md §5 C06"),
+ "C08": ("fault enumeration inside proptest-generated valid bases: every single fault at every position (duplicate ids, undefined ids in three syntactic places, each unset required field, each invalid bound shape, hint and dependency faults) plus generated pairs, against an independent well-formedness predicate with expected error class and path",
+         "Per generated base instance the single-fault space is enumerated completely; validate() must fail iff one of its three rules is broken, the typed conversion must fail with the matching error class and outermost path for every listed rule and accept (with equal typed content, also under permutation) every well-formed base.",
+         "Whether the typed conversion rejects undefined variable ids inside functions is not asserted (statement lists it under validation).",
+         "DESIGN.md §5 C08"),
  "C09": ("proptest-driven generation of instances x {penalty_method, uniform_penalty_method} x weights vs exact polynomial f + sum w g^2 in the joint variables and a bookkeeping model",
          "Generated-input search with an exact-rational oracle for the parametric objective (coefficient-wise in (x, w), also after instantiating the weights) and a model of which constraints/parameters/fields must be present.",
          "Trusts exact.rs; variable ids below u64::MAX-8.",
@@ -53,6 +57,14 @@ CHECKS = {
          "Exploration with an exhaustively enumerated corner-class sub-space (every combination of {-inf, negative, -0, 0, positive, +inf} endpoint classes); containment exact for dyadic data, relative 1e-9 otherwise; invalid intervals and panics are failures.",
          "Scaling by 0 excluded by the statement; as_integer_bound only on intervals containing an integer; magnitudes <= 1e6.",
          "DESIGN.md §5 C16"),
+ "C17": ("proptest-driven generation of abstract LP/MIP models rendered by an independent free-format MPS writer in generated layouts (3/5-field, tabs, comments, OBJSENSE variants, gzip) and with injected errors; oracle = the abstract model (matching by name, exact polynomials, value domains)",
+         "Generated-input search with an independent writer, so the reader is compared with the problem the file describes rather than with the SDK's own writer; every row type, bound keyword, range sign and error class is required to occur.",
+         "UP 0 without LO, RANGES 0, several N rows, tab-indented lines and RHS on undeclared rows are not generated (no agreed meaning).",
+         "DESIGN.md §5 C17"),
+ "C18": ("proptest-driven generation of linear instances -> mps::write_file -> mps::load_file round trip through real gzip files; oracle = the generated instance (polynomials by id, equality kinds, value domains); nonlinear instances must be refused naming the offender",
+         "Generated-input round-trip search over bound shapes (absent, half-infinite, negative, fractional), kinds, senses, non-contiguous ids, constant-only constraints.",
+         "Names/metadata/removed constraints documented as not preserved; linear functions normalised.",
+         "DESIGN.md §5 C18"),
  "C14": ("model-based stateful testing: generated relax/restore/evaluate histories interpreted against a two-map model with invariants checked after every step",
          "Generated operation sequences (<=8 quick, <=20 thorough) with ids from active/removed/unknown; Ok/Err, unchanged-on-error, constraint collection, list membership, reasons, per-state values and feasibility invariance checked after every step.",
          "Trusts the model in props/c14.rs and the reference evaluator.",
